@@ -62,6 +62,8 @@ def not_equal(
         x2 = numpoly.polynomial(x2)
     # x1, x2 = numpoly.align_polynomials(x1, x2)
     where = numpy.asarray(where)
+    if out is not None:
+        numpy.copyto(out, False, where=where)
     for key in x1.keys:
         tmp = numpy.not_equal(x1.values[key], x2.values[key], where=where, **kwargs)
         if out is None:
